@@ -187,7 +187,8 @@ R49 = [
     (r'idx1\.cmp\(&idx2\)', lambda m: 'vx_cmp_u64(&idx1, &idx2)', 'R49'),
     (r'def1\.cmp\(&def2\)', lambda m: 'vx_cmp_string(&def1, &def2)', 'R49'),
     (r'dest1\.to_str\(\)\.cmp\(dest2\.to_str\(\)\)', lambda m: 'vx_cmp_str(dest1.to_str(), dest2.to_str())', 'R49'),
-    (r'if result != Ordering::Equal \{', lambda m: 'if vx_ne_equal(result) {', 'R49'),
+    (r'\b(\w+) != (?:std::cmp::)?Ordering::Equal\b', lambda m: 'vx_ne_equal(%s)' % m.group(1), 'R49'),
+    (r'\b(\w+) == (?:std::cmp::)?Ordering::Equal\b', lambda m: '!vx_ne_equal(%s)' % m.group(1), 'R49'),
     (r'let locked_self = self\.0\.read\(\);', lambda m: 'let locked_self = self.vx_read();', 'R49'),
     (r'let locked_other = other\.0\.read\(\);', lambda m: 'let locked_other = other.vx_read();', 'R49'),
     (r'return std::cmp::Ordering::(Less|Greater)', lambda m: 'return Ordering::%s' % m.group(1), 'R49'),
